@@ -38,6 +38,282 @@ def mk_seq(fields, nroot):
     return ("seq", fields, (so, fc, ea2))
 
 
+# ---------------------------------------------------------------- schema pairs and the contexts they are nested in
+# A pair is (t1, t2, mk): t1 the older type, t2 = t1 with appended additions/alternatives/items at one or more (nested)
+# positions, mk(rng, punk) -> (a value of t1, a value of t2).  punk = probability that a CHOICE/ENUMERATED position of the
+# t2 value takes an index unknown to t1 (None: uniform over all indices of t2, the top-level distribution).
+# A field of a SEQUENCE under construction is (fk, default, pair, probability of being present | None).
+SIZES = [1, 2, 3, 5, 8, 20, 63, 64, 70, 126, 127, 128, 129, 130, 200, 255, 256, 300]
+SIBLINGS = [("bool",), ("int", 0, (True, 0, True, 255, False)), ("oct", (0, 3, False)), ("str", U.CS_IA5, (0, 3, False)),
+            ("enum", 3, (3, False)), ("null",)]
+LIST_SIZES = [(-1, -1, False), (0, 3, False), (0, 3, True), (1, 4, False), (1, 4, True), (0, 127, False), (0, -1, False), (-1, 20, False)]
+MAX_OCTETS = 12000      # stay well below 16K octets per open type (F01-3)
+
+
+def valfor(rng, t):
+    if t[0] == "oct":
+        return ("oct", [rng.randrange(256) for _ in range(rng.choice([0, 1, 5, 126, 127, 128, 200, 298]))])
+    return U.gen_val(rng, t, "valid")
+
+
+def const_pair(t, v=None, mkv=None):
+    """a type that is the same in both versions (value v, or a fresh one per call)"""
+    def mk(rng, punk):
+        x = v if v is not None else (mkv(rng, t) if mkv else U.gen_val(rng, t, "valid"))
+        return x, x
+    return (t, t, mk)
+
+
+def sibling(rng):
+    ft = rng.choice(SIBLINGS)
+    r = rng.random()
+    fk = "req" if r < 0.5 else ("opt" if r < 0.8 else "def")
+    d = U.gen_val(rng, ft, "valid") if fk == "def" else None
+    return (fk, d, const_pair(ft), 0.6)
+
+
+def palette_field(rng, fk):
+    t, v = add_palette(rng, rng.choice(SIZES))
+    return (fk, None, const_pair(t, v), None)
+
+
+def known_add(rng):
+    return palette_field(rng, "opt" if rng.random() < 0.85 else "req")
+
+
+def build_seq(pf, ea, n1=None):
+    """SEQUENCE pair over the fields pf (root = pf[:ea+1], everything when ea < 0); t2 has all fields, t1 the first n1"""
+    n = len(pf)
+    n1 = n if n1 is None else n1
+    f1 = [(fk, d, P[0]) for fk, d, P, _ in pf[:n1]]
+    f2 = [(fk, d, P[1]) for fk, d, P, _ in pf]
+    t1 = ("seq", f1, U.consistent_seq(f1, ea))
+    t2 = ("seq", f2, U.consistent_seq(f2, ea))
+    first = ea + 1 if ea >= 0 else n
+
+    def present(rng, count):
+        # the encoder refuses "first addition absent, a later one present"; otherwise a prefix or an arbitrary subset
+        if count == 0:
+            return []
+        p = count if rng.random() < 0.3 else rng.randrange(0, count + 1)
+        pres = [i < p for i in range(count)]
+        if p >= 1 and rng.random() < 0.25:
+            pres = [True] + [rng.random() < 0.5 for _ in range(count - 1)]
+        for i in range(count):
+            fk, _, _, pp = pf[first + i]
+            if fk == "req" or (pp is not None and rng.random() < pp):
+                pres[i] = True
+        if any(pres):
+            pres[0] = True      # additions are never DEFAULT here, so "present" is what the encoder sees
+        return pres
+
+    def mk(rng, punk):
+        v1, v2 = [], []
+        for fk, d, P, pp in pf[:first]:
+            a, b = P[2](rng, punk)
+            if fk == "opt" and rng.random() >= pp:
+                a = b = None
+            elif fk == "def" and rng.random() < 0.4:
+                a = b = d
+            v1.append(a)
+            v2.append(b)
+        adds = [pf[i][2][2](rng, punk) for i in range(first, n)]
+        pr1 = present(rng, n1 - first)
+        pr2 = present(rng, n - first)
+        v1 += [adds[i][0] if pr1[i] else None for i in range(n1 - first)]
+        v2 += [adds[i][1] if pr2[i] else None for i in range(n - first)]
+        return ("seq", v1), ("seq", v2)
+    return (t1, t2, mk)
+
+
+def seq_pair(rng, q, inner=None):
+    """V1 = root + k1 additions, V2 = root + k2 > k1 additions; `inner`: a pair that evolves at the same time, as a root
+    component or as an addition known to both versions"""
+    root = [(fk, d, const_pair(ft), 0.6) for fk, d, ft in root_fields(rng)]
+    slot = None
+    if inner is not None:
+        slot = "root" if rng.random() < 0.65 else "add"
+        if slot == "root":
+            root.insert(rng.randrange(len(root) + 1), ("req" if rng.random() < 0.6 else "opt", None, inner, 0.85))
+    nroot = len(root)
+    kmax = 8 - nroot
+    k1 = rng.randrange(1 if slot == "add" else 0, min(3, kmax) + 1)
+    if kmax <= k1:
+        return None
+    k2 = rng.randrange(k1 + 1, min(kmax, k1 + (4 if q else 8)) + 1)
+    adds = []
+    for i in range(k2):
+        # additions the older version does not know are OPTIONAL (a mandatory one could not be absent)
+        adds.append(palette_field(rng, "opt" if (i >= k1 or rng.random() < 0.85) else "req"))
+    if slot == "add":
+        adds[rng.randrange(k1)] = ("opt" if rng.random() < 0.85 else "req", None, inner, 0.85)
+    return build_seq(root + adds, nroot - 1, nroot + k1)
+
+
+def choice_pair(rng, inner=None):
+    std = rng.randrange(1, 5)
+    n1 = std + rng.randrange(0, 2)
+    n2 = min(8, n1 + rng.randrange(1, 4))
+    alts = [const_pair(add_palette(rng, rng.choice(SIZES))[0], mkv=valfor) for _ in range(n2)]
+    j = None
+    if inner is not None:
+        j = rng.randrange(n1)       # a root alternative, or an extension alternative both versions know
+        alts[j] = inner
+
+    def pick(rng, hi):
+        if j is not None and rng.random() < 0.7:
+            return j
+        return rng.randrange(hi)
+
+    def mk(rng, punk):
+        i1 = pick(rng, n1)
+        if punk is None:
+            i2 = rng.randrange(n2)
+        elif rng.random() < punk:
+            i2 = rng.randrange(n1, n2)
+        else:
+            i2 = pick(rng, n1)
+        return ("choice", i1, alts[i1][2](rng, punk)[0]), ("choice", i2, alts[i2][2](rng, punk)[1])
+    return (("choice", [A[0] for A in alts[:n1]], (std, True)), ("choice", [A[1] for A in alts], (std, True)), mk)
+
+
+def enum_pair(rng):
+    std = rng.choice([1, 2, 3, 5, 8])
+    n1 = std + rng.randrange(0, 3)
+    n2 = n1 + rng.choice([1, 2, 60, 70])
+
+    def mk(rng, punk):
+        i1 = rng.randrange(n1)
+        if punk is None:
+            i2 = rng.randrange(n2)
+        else:
+            i2 = rng.randrange(n1, n2) if rng.random() < punk else rng.randrange(n1)
+        return ("enum", i1), ("enum", i2)
+    return (("enum", n1, (std, True)), ("enum", n2, (std, True)), mk)
+
+
+def base_pair(rng, q, inner=None):
+    r = rng.random()
+    if inner is not None:
+        return seq_pair(rng, q, inner) if r < 0.7 else choice_pair(rng, inner)
+    if r < 0.55:
+        return seq_pair(rng, q)
+    return choice_pair(rng) if r < 0.8 else enum_pair(rng)
+
+
+def ctx_seqroot(rng, P, also=None):
+    """(a) root component of an outer SEQUENCE; `also`: a second, independent pair evolving in the same SEQUENCE"""
+    me = [("req" if rng.random() < 0.6 else "opt", None, P, 0.85)]
+    if also is not None:
+        me += [sibling(rng) for _ in range(rng.randrange(0, 2))] + [("req" if rng.random() < 0.6 else "opt", None, also, 0.85)]
+    pf = [sibling(rng) for _ in range(rng.randrange(0, 3))] + me + [sibling(rng) for _ in range(rng.randrange(0, 3))]
+    if rng.random() < 0.5:
+        return build_seq(pf, -1)
+    return build_seq(pf + [known_add(rng) for _ in range(rng.randrange(0, 3))], len(pf) - 1)
+
+
+def ctx_list(rng, P):
+    """(b) element type of a SEQUENCE OF with 0..3 elements, every element with a value of its own"""
+    key = rng.choice(LIST_SIZES)
+
+    def mk(rng, punk):
+        xs = [P[2](rng, punk) for _ in range(rng.randrange(max(key[0], 0), 4))]
+        return ("list", [x[0] for x in xs]), ("list", [x[1] for x in xs])
+    return (("list", P[0], key), ("list", P[1], key), mk)
+
+
+def ctx_choice(rng, P):
+    """(c) alternative of an outer CHOICE: a root alternative, or an extension alternative (open type)"""
+    std = rng.randrange(1, 5)
+    if rng.random() < 0.5:
+        ext, n = True, std + rng.randrange(1, 3)
+        j = rng.randrange(std, n)
+    else:
+        ext = rng.random() < 0.5
+        n = std + (rng.randrange(0, 3) if ext else 0)
+        j = rng.randrange(std)
+    alts = [const_pair(add_palette(rng, rng.choice(SIZES))[0], mkv=valfor) for _ in range(n)]
+    alts[j] = P
+
+    def mk(rng, punk):
+        i = j if rng.random() < 0.85 else rng.randrange(n)
+        a, b = alts[i][2](rng, punk)
+        return ("choice", i, a), ("choice", i, b)
+    return (("choice", [A[0] for A in alts], (std, ext)), ("choice", [A[1] for A in alts], (std, ext)), mk)
+
+
+def ctx_seqext(rng, P):
+    """(d) extension addition of an outer extensible SEQUENCE (inside an open type), additions before and after it"""
+    root = [sibling(rng) for _ in range(rng.randrange(1, 4))]
+    me = ("opt" if rng.random() < 0.85 else "req", None, P, 0.85)
+    pf = root + [known_add(rng) for _ in range(rng.randrange(0, 3))] + [me] + [known_add(rng) for _ in range(rng.randrange(0, 3))]
+    return build_seq(pf, len(root) - 1)
+
+
+def ctx_any(rng, P, which=None):
+    which = which or rng.choice("abcd")
+    return {"a": ctx_seqroot, "b": ctx_list, "c": ctx_choice, "d": ctx_seqext}[which](rng, P)
+
+
+def nested_pair(rng, q):
+    """-> (family, pair)"""
+    P = base_pair(rng, q)
+    if P is None:
+        return None, None
+    fam = rng.choice("abcde")
+    if fam != "e":
+        return fam, ctx_any(rng, P, fam)
+    r = rng.random()
+    if r < 0.45:        # two contexts, one inside the other
+        return "e:ctx-in-ctx", ctx_any(rng, ctx_any(rng, P))
+    if r < 0.8:         # an evolving SEQUENCE/CHOICE inside an evolving SEQUENCE/CHOICE (root component, known addition/alternative)
+        Q = base_pair(rng, q, P)
+        if Q is None:
+            return None, None
+        return "e:evolving-in-evolving", (ctx_any(rng, Q) if rng.random() < 0.4 else Q)
+    Q = base_pair(rng, q)   # two independent pairs evolving as components of one SEQUENCE
+    if Q is None:
+        return None, None
+    R = ctx_seqroot(rng, P, Q)
+    return "e:two-siblings", (ctx_list(rng, R) if rng.random() < 0.3 else R)
+
+
+def on_grid(t):
+    k = t[0]
+    if k == "int":
+        return t[2] in U.G.NUM
+    if k == "str":
+        return t[2] in U.G.SIZE
+    if k in ("oct", "bits"):
+        return t[1] in U.G.SIZE
+    if k == "list":
+        return t[2] in U.G.SIZE and on_grid(t[1])
+    if k == "seq":
+        return t[2] in U.G.SEQ and all(on_grid(ft) for _, _, ft in t[1])
+    if k == "choice":
+        return t[2] in U.G.CHOICE and 1 <= len(t[1]) <= 8 and all(on_grid(a) for a in t[1])
+    if k == "enum":
+        return t[2] in U.G.ENUM
+    return True
+
+
+def octets(v):
+    if v is None:
+        return 0
+    k = v[0]
+    if k in ("oct", "str"):
+        return len(v[1]) + 2
+    if k in ("list", "seq"):
+        return 1 + sum(octets(x) for x in v[1])
+    if k == "choice":
+        return 2 + octets(v[2])
+    return 8 if k == "int" else 1
+
+
+class _UnknownIndex(Exception):
+    pass
+
+
 class C05(Spec):
     prop = "C05"
     coq_targets = ["Props/C05.vo"]
@@ -50,7 +326,13 @@ class C05(Spec):
                   "additions / alternatives / items; model tied to the crate by differential execution of write-under-A / read-under-B with a "
                   "trailing sentinel, judged by an oracle computed from the pair.")
     rule = ("pairs (V1, V2 = V1 + k additions), k = 1..8 (quick 1..4), addition encodings of 1..300 octets (covering 127/128 and the high bits of the "
-            "first length octet), nested in an outer SEQUENCE followed by a sentinel; both directions; CHOICE and ENUMERATED extension pairs. "
+            "first length octet), followed by a sentinel; both directions; CHOICE and ENUMERATED extension pairs. "
+            "About 40% of the pairs are nested in an outer context that is the same in both versions (A = Ctx[V1], B = Ctx[V2]): (a) root component "
+            "(required/OPTIONAL, siblings before/after) of a plain or extensible SEQUENCE, (b) element of a SEQUENCE OF with 0..3 elements each with its own "
+            "value, (c) root or extension alternative of a CHOICE, (d) extension addition of a SEQUENCE with additions before/after, (e) two such contexts "
+            "inside each other, an evolving SEQUENCE/CHOICE with an evolving root component / known addition / known alternative, or two pairs evolving as "
+            "siblings; the oracle pads (forward) / drops (backward) the additions at every nested position and accepts InvalidChoiceIndex only when the "
+            "written value selects an unknown alternative/item at a position the reader decodes (a minority of the nested cases). "
             "non-trivial = the written value has at least one addition present (backward) / the reader knows more additions than were written (forward)")
     assumptions_text = ["descriptor constants consistent with the field list", "root components must stay within the constant grid (<= 8 fields)"]
 
@@ -58,75 +340,35 @@ class C05(Spec):
         q = tier == "quick"
         L = []
         n = 1500 if q else 50000
-        sizes = [1, 2, 3, 5, 8, 20, 63, 64, 70, 126, 127, 128, 129, 130, 200, 255, 256, 300]
+        stats = {}
         while len(L) < n:
-            kind = rng.random()
-            if kind < 0.75:
-                root = root_fields(rng)
-                kmax = 8 - len(root)
-                k1 = rng.randrange(0, min(3, kmax) + 1)
-                k2 = rng.randrange(k1 + 1, min(kmax, k1 + (4 if q else 8)) + 1) if kmax > k1 else None
-                if k2 is None:
-                    continue
-                adds = []
-                for _ in range(k2):
-                    t, v = add_palette(rng, rng.choice(sizes))
-                    # additions the older version does not know are OPTIONAL (a mandatory one could not be absent)
-                    fk = "opt" if (len(adds) >= k1 or rng.random() < 0.85) else "req"
-                    adds.append(((fk, None, t), v))
-                v1_t = mk_seq(root + [a[0] for a in adds[:k1]], len(root))
-                v2_t = mk_seq(root + [a[0] for a in adds], len(root))
-                if v1_t[2] not in U.G.SEQ or v2_t[2] not in U.G.SEQ or len(root) == 0 and False:
-                    continue
-                rootv = []
-                for fk, d, ft in root:
-                    if fk == "req":
-                        rootv.append(U.gen_val(rng, ft, "valid"))
-                    elif fk == "opt":
-                        rootv.append(U.gen_val(rng, ft, "valid") if rng.random() < 0.6 else None)
-                    else:
-                        rootv.append(d if rng.random() < 0.4 else U.gen_val(rng, ft, "valid"))
-                # presence of additions: a prefix is present (anything else is refused by the encoder)
-                def addvals(count, npresent):
-                    out = []
-                    for i in range(count):
-                        (fk, _, t), v = adds[i]
-                        out.append(v if (i < npresent or fk == "req") else None)
-                    return out
-                # forward: write under V1, read under V2
-                p1 = rng.randrange(0, k1 + 1)
-                L.append(U.line(1203, U.enc_ty(v1_t) + U.enc_ty(v2_t) + U.enc_val(("seq", rootv + addvals(k1, p1)))))
-                # backward: write under V2, read under V1
-                p2 = rng.randrange(0, k2 + 1)
-                L.append(U.line(1203, U.enc_ty(v2_t) + U.enc_ty(v1_t) + U.enc_val(("seq", rootv + addvals(k2, p2)))))
-            elif kind < 0.9:
-                std = rng.randrange(1, 5)
-                n1 = std + rng.randrange(0, 2)
-                n2 = min(8, n1 + rng.randrange(1, 4))
-                alts = []
-                for _ in range(n2):
-                    t, _ = add_palette(rng, rng.choice(sizes))
-                    alts.append(t)
-                t1 = ("choice", alts[:n1], (std, True))
-                t2 = ("choice", alts, (std, True))
-                i1 = rng.randrange(n1)
-                L.append(U.line(1203, U.enc_ty(t1) + U.enc_ty(t2) + U.enc_val(("choice", i1, self.valfor(rng, alts[i1])))))
-                i2 = rng.randrange(n2)
-                L.append(U.line(1203, U.enc_ty(t2) + U.enc_ty(t1) + U.enc_val(("choice", i2, self.valfor(rng, alts[i2])))))
+            if rng.random() < 0.6:
+                # the pair is the top-level type
+                kind = rng.random()
+                fam = "top"
+                P = seq_pair(rng, q) if kind < 0.75 else (choice_pair(rng) if kind < 0.9 else enum_pair(rng))
+                punk = None
             else:
-                std = rng.choice([1, 2, 3, 5, 8])
-                n1 = std + rng.randrange(0, 3)
-                n2 = n1 + rng.choice([1, 2, 60, 70])
-                t1 = ("enum", n1, (std, True))
-                t2 = ("enum", n2, (std, True))
-                L.append(U.line(1203, U.enc_ty(t1) + U.enc_ty(t2) + U.enc_val(("enum", rng.randrange(n1)))))
-                L.append(U.line(1203, U.enc_ty(t2) + U.enc_ty(t1) + U.enc_val(("enum", rng.randrange(n2)))))
+                # the pair sits inside an outer context that is the same in both versions (families a..e)
+                fam, P = nested_pair(rng, q)
+                # unknown CHOICE/ENUMERATED indices at nested positions: a minority of the cases
+                punk = 0.5 if rng.random() < 0.3 else 0.0
+            if P is None or not on_grid(P[0]) or not on_grid(P[1]):
+                continue
+            t1, t2, mk = P
+            v1, v2 = mk(rng, punk)
+            if max(octets(v1), octets(v2)) > MAX_OCTETS:
+                continue
+            stats[fam] = stats.get(fam, 0) + 1
+            # forward: write under Ctx[V1], read under Ctx[V2]
+            L.append(U.line(1203, U.enc_ty(t1) + U.enc_ty(t2) + U.enc_val(v1)))
+            # backward: write under Ctx[V2], read under Ctx[V1]
+            L.append(U.line(1203, U.enc_ty(t2) + U.enc_ty(t1) + U.enc_val(v2)))
+        self.gen_stats = stats
         return L
 
     def valfor(self, rng, t):
-        if t[0] == "oct":
-            return ("oct", [rng.randrange(256) for _ in range(rng.choice([0, 1, 5, 126, 127, 128, 200, 298]))])
-        return U.gen_val(rng, t, "valid")
+        return valfor(rng, t)
 
     def canon(self, out):
         if out.startswith("3 ") or out.endswith(" 2 7") or out.endswith(" 2 3") or out == "2 7":
@@ -149,8 +391,8 @@ class C05(Spec):
         if r[0] in (2, 3):
             return (direction + "_reader_panics", "reader panicked/crashed: %s" % r[:2])
         if r[0] == 1:
-            if not forward and ta[0] in ("choice", "enum") and self._unknown_index(ta, tb, v) and r[1] == 7:
-                return None       # unknown extension alternative/item reported as an error: allowed
+            if not forward and self._unknown_index(ta, tb, v) and r[1] == 7:
+                return None       # unknown extension alternative/item (at any position the reader decodes) reported as an error: allowed
             return (direction + "_decode_fails", "reader failed with error kind %d" % r[1])
         got, j2 = U.dec_val(r, 1)
         want = self._expected(ta, tb, v, forward)
@@ -165,35 +407,68 @@ class C05(Spec):
             return (direction + "_bits_left_over", "reader does not end at the end of the message: %s" % s[2:4])
         return None
 
+    def _dir(self, ta, tb):
+        """+1: tb is ta with appended additions/alternatives/items somewhere (forward), -1: the other way round (backward),
+        0: no difference.  The two types are walked in parallel; the first position where they differ decides."""
+        k = ta[0]
+        if k != tb[0]:
+            return 0
+        if k in ("seq", "choice"):
+            xa = [f[2] for f in ta[1]] if k == "seq" else ta[1]
+            xb = [f[2] for f in tb[1]] if k == "seq" else tb[1]
+            for fa, fb in zip(xa, xb):
+                d = self._dir(fa, fb)
+                if d:
+                    return d
+            return (len(xb) > len(xa)) - (len(xb) < len(xa))
+        if k == "list":
+            return self._dir(ta[1], tb[1])
+        if k == "enum":
+            return (tb[1] > ta[1]) - (tb[1] < ta[1])
+        return 0
+
     def _extends(self, ta, tb):
-        """is tb = ta + appended additions (forward direction)?"""
-        if ta[0] == "seq":
-            return len(tb[1]) >= len(ta[1])
-        if ta[0] == "choice":
-            return len(tb[1]) >= len(ta[1])
-        return tb[1] >= ta[1]
+        """is tb = ta + appended additions at some (nested) positions (forward direction)?"""
+        return self._dir(ta, tb) >= 0
 
     def _unknown_index(self, ta, tb, v):
-        if ta[0] == "choice":
-            return v[1] >= len(tb[1])
-        return v[1] >= tb[1]
+        """does the written value select, at a position the reader decodes, a CHOICE alternative / ENUMERATED item the reader does not know?"""
+        try:
+            self._exp(ta, tb, v, False)
+        except _UnknownIndex:
+            return True
+        return False
 
     def _expected(self, ta, tb, v, forward):
-        if ta[0] == "seq":
-            if forward:
-                extra = []
-                for fk, d, ft in tb[1][len(ta[1]):]:
-                    extra.append(None if fk == "opt" else "?")
-                if "?" in extra:
-                    return ("seq", v[1] + extra)    # a mandatory addition unknown to the writer: no defined expectation, compared loosely below
-                return ("seq", v[1] + extra)
-            return ("seq", v[1][:len(tb[1])])
-        if ta[0] == "choice":
-            if v[1] >= len(tb[1]):
-                return None
-            return v
-        if v[1] >= tb[1]:
+        """the value the reader has to produce; None when it has no value for it (unknown alternative/item)"""
+        try:
+            return self._exp(ta, tb, v, forward)
+        except _UnknownIndex:
             return None
+
+    def _exp(self, ta, tb, v, forward):
+        """v (of type ta) as seen through tb: additions unknown to the writer absent (forward), additions unknown to the
+        reader dropped (backward), at every nested position"""
+        k = ta[0]
+        if k == "seq":
+            out = []
+            for (_, _, fa), (_, _, fb), x in zip(ta[1], tb[1], v[1]):
+                out.append(None if x is None else self._exp(fa, fb, x, forward))
+            if forward:
+                for fk, d, ft in tb[1][len(ta[1]):]:
+                    # a mandatory addition unknown to the writer has no defined expectation ("?" never compares equal)
+                    out.append(None if fk == "opt" else (d if fk == "def" else "?"))
+            return ("seq", out)
+        if k == "choice":
+            if v[1] >= len(tb[1]):
+                raise _UnknownIndex()
+            return ("choice", v[1], self._exp(ta[1][v[1]], tb[1][v[1]], v[2], forward))
+        if k == "list":
+            return ("list", [self._exp(ta[1], tb[1], x, forward) for x in v[1]])
+        if k == "enum":
+            if v[1] >= tb[1]:
+                raise _UnknownIndex()
+            return v
         return v
 
     def nontrivial(self, line, out):
